@@ -133,6 +133,15 @@ func c13(args []string) int {
 	add("return-size", "FP struct24", "FP", "", func(b *mocker.Builder) { b.Func(fnzoo.FP).Return(s24{}) })
 	add("return-size", "FSP pos1 struct8", "FSP", "", func(b *mocker.Builder) { b.Func(fnzoo.FSP).Return(1, s8{}, (*fnzoo.T)(nil)) })
 	add("return-size", "FSP pos2 int16", "FSP", "", func(b *mocker.Builder) { b.Func(fnzoo.FSP).Return(1, fnzoo.S3{}, int16(3)) })
+	// --- the same return mistakes given through Returns(v1..vn) on a fresh mocker (its own code path per mocker kind)
+	add("return-size", "F1 Returns string", "F1", "", func(b *mocker.Builder) { b.Func(fnzoo.F1).Returns(1, "x") })
+	add("return-size", "F1 Returns first int32", "F1", "", func(b *mocker.Builder) { b.Func(fnzoo.F1).Returns(int32(5), 6) })
+	add("return-too-few", "F2R Returns one each", "F2R", "", func(b *mocker.Builder) { b.Func(fnzoo.F2R).Returns(1, 2) })
+	add("return-too-few", "F2R Returns short tuple", "F2R", "", func(b *mocker.Builder) {
+		b.Func(fnzoo.F2R).Returns([]interface{}{1, "a"}, []interface{}{2})
+	})
+	add("return-size", "T.M Returns string", "T.M", "", func(b *mocker.Builder) { b.Struct(&fnzoo.T{}).Method("M").Returns(1, "x") })
+	add("return-size", "T.M Returns int8", "T.M", "", func(b *mocker.Builder) { b.Struct(&fnzoo.T{}).Method("M").Returns(int8(1)) })
 	add("when-arg-size", "F1 string", "F1", "", func(b *mocker.Builder) { b.Func(fnzoo.F1).When("x").Return(1) })
 	add("when-arg-size", "F2 pos1 int8", "F2", "", func(b *mocker.Builder) { b.Func(fnzoo.F2).When("a", int8(1)).Return(1) })
 	// --- unknown method / symbol, non-function target
